@@ -36,15 +36,35 @@ type vfConn struct {
 	pastDeadline bool // a read deadline was set that had already expired
 	idle          time.Duration // the idle time-out the harness configured (0: unknown)
 	shortDeadline bool          // a read deadline was armed at less than half the idle time-out
+	gaps          []int         // pause (in clock units) before the peer sends read i
+	armed         time.Time     // the read deadline in force
+	wArmed        time.Time     // the write deadline in force
 }
 
 var vfErrIO = errors.New("vf: i/o error")
 
 func (c *vfConn) ev(s string) { *c.log = append(*c.log, s+":"+c.name) }
 
+// vfTimeout is the error of a read whose deadline passed before data arrived.
+type vfTimeout struct{}
+
+func (vfTimeout) Error() string   { return "vf: i/o timeout" }
+func (vfTimeout) Timeout() bool   { return true }
+func (vfTimeout) Temporary() bool { return true }
+
 func (c *vfConn) Read(p []byte) (int, error) {
 	if c.closed {
 		return 0, vfErrIO
+	}
+	if c.pos < len(c.gaps) && c.gaps[c.pos] > 0 {
+		// the peer pauses before it sends its next bytes; a real connection gives up the read when
+		// the armed deadline passes first
+		nd.AdvanceClock(c.gaps[c.pos])
+		c.gaps[c.pos] = 0
+		if !c.armed.IsZero() && time.Now().After(c.armed) {
+			c.ev("TIMEOUT")
+			return 0, vfTimeout{}
+		}
 	}
 	if c.pos >= len(c.reads) {
 		c.ev("EOF")
@@ -68,6 +88,13 @@ func (c *vfConn) Write(p []byte) (int, error) {
 	k := c.nwrites
 	if k == c.slowWriteAt && c.slowWriteAt >= 0 {
 		nd.AdvanceClock(30) // the peer is slow to take the data: longer than the idle time-out
+	}
+	if !c.wArmed.IsZero() && time.Now().After(c.wArmed) {
+		// a write deadline is in force and has passed (nobody configured a write time-out): a
+		// socket gives the write up
+		c.ev("WTIMEOUT")
+		c.nwrites++
+		return 0, vfTimeout{}
 	}
 	c.nwrites++
 	if c.closed {
@@ -101,9 +128,10 @@ func (c *vfConn) CloseRead() error {
 }
 func (c *vfConn) LocalAddr() net.Addr                { return nil }
 func (c *vfConn) RemoteAddr() net.Addr               { return nil }
-func (c *vfConn) SetDeadline(t time.Time) error      { c.ev("D"); return nil }
+func (c *vfConn) SetDeadline(t time.Time) error      { c.ev("D"); c.armed, c.wArmed = t, t; return nil }
 func (c *vfConn) SetReadDeadline(t time.Time) error {
 	c.ev("RD")
+	c.armed = t
 	if c.checkDeadline && t.Before(time.Now()) { // only under the concrete clock (forks on symbolic instants)
 		c.pastDeadline = true
 	}
@@ -112,7 +140,7 @@ func (c *vfConn) SetReadDeadline(t time.Time) error {
 	}
 	return nil
 }
-func (c *vfConn) SetWriteDeadline(t time.Time) error { c.ev("WD"); return nil }
+func (c *vfConn) SetWriteDeadline(t time.Time) error { c.ev("WD"); c.wArmed = t; return nil }
 
 type vfLn struct{}
 
@@ -199,22 +227,34 @@ type vfIdleConn struct {
 	vfConn
 	closedCh chan struct{}
 	release  chan struct{}
+	wake     chan struct{}
 }
 
 func vfNewIdleConn(name string, log *[]string) *vfIdleConn {
-	return &vfIdleConn{vfConn: vfConn{name: name, failAt: -1, slowWriteAt: -1, log: log}, closedCh: make(chan struct{}), release: make(chan struct{})}
+	return &vfIdleConn{vfConn: vfConn{name: name, failAt: -1, slowWriteAt: -1, log: log}, closedCh: make(chan struct{}), release: make(chan struct{}), wake: make(chan struct{}, 1)}
 }
 
 func (c *vfIdleConn) Read(p []byte) (int, error) {
-	if c.pos < len(c.reads) && !c.closed {
-		return c.vfConn.Read(p)
+	for {
+		if c.pos < len(c.reads) && !c.closed {
+			return c.vfConn.Read(p)
+		}
+		select {
+		case <-c.closedCh:
+			return 0, vfErrIO
+		case <-c.release:
+			c.ev("EOF")
+			return 0, io.EOF
+		case <-c.wake: // more data was scripted
+		}
 	}
+}
+
+// kick wakes a blocked Read after the harness appended to the script.
+func (c *vfIdleConn) kick() {
 	select {
-	case <-c.closedCh:
-		return 0, vfErrIO
-	case <-c.release:
-		c.ev("EOF")
-		return 0, io.EOF
+	case c.wake <- struct{}{}:
+	default:
 	}
 }
 
